@@ -91,11 +91,14 @@ inductive Prog (Req Val Out : Type) where
 section
 variable {σ Seed Req Val Out : Type}
 
-/-- the seed actually used by `rng.seed(seed)`: `None` takes fresh OS entropy -/
-def effSeed (O : Ops σ Seed Req Val) (seed : Option Seed) (st : State σ Val) : Seed × State σ Val :=
+/-- the seed actually used by `rng.seed(seed)`: `None` takes fresh OS entropy (counter `e`) -/
+def effSeedE (O : Ops σ Seed Req Val) (seed : Option Seed) (e : Nat) : Seed × Nat :=
   match seed with
-  | some s => (s, st)
-  | none => (O.entropy st.ent, { st with ent := st.ent + 1 })
+  | some s => (s, e)
+  | none => (O.entropy e, e + 1)
+
+def effSeed (O : Ops σ Seed Req Val) (seed : Option Seed) (st : State σ Val) : Seed × State σ Val :=
+  ((effSeedE O seed st.ent).1, { st with ent := (effSeedE O seed st.ent).2 })
 
 /-- General semantics of the body for an arbitrary table.
 `cur` is the private stream as seeded by `temp_seed` (what in-scope statements see); `outer` is the
@@ -156,21 +159,12 @@ def runIn (t : Table) (O : Ops σ Seed Req Val) (seed : Option Seed) :
       let res := runIn t O seed (k (O.draw cur r).1) (O.draw cur r).2 e l
       { res with trace := (site, r) :: res.trace }
     else
-      match seed with
-      | some s =>
-        let res := runIn t O seed (k (O.draw (O.seedTo s) r).1) cur e l
-        { res with trace := (site, r) :: res.trace }
-      | none =>
-        let res := runIn t O seed (k (O.draw (O.seedTo (O.entropy e)) r).1) cur (e + 1) l
-        { res with trace := (site, r) :: res.trace }
+      let res := runIn t O seed (k (O.draw (O.seedTo (effSeedE O seed e).1) r).1) cur (effSeedE O seed e).2 l
+      { res with trace := (site, r) :: res.trace }
   | .reseed site k, cur, e, l =>
-    match seed with
-    | some s =>
-      if (lookup t site).src = .priv then runIn t O seed k (O.seedTo (O.intz s)) e l
-      else runIn t O seed k cur e l
-    | none =>
-      if (lookup t site).src = .priv then runIn t O seed k (O.seedTo (O.intz (O.entropy e))) (e + 1) l
-      else runIn t O seed k cur (e + 1) l
+    if (lookup t site).src = .priv then
+      runIn t O seed k (O.seedTo (O.intz (effSeedE O seed e).1)) (effSeedE O seed e).2 l
+    else runIn t O seed k cur (effSeedE O seed e).2 l
   | .kernel v k, cur, e, _ => runIn t O seed k cur e (some v)
 
 /-- `temp_seed` exactly as coded: save, seed, run the body, restore -/
